@@ -380,6 +380,9 @@ bs("slip-reduce-no-init", "C10", "C09-r15", API, "return reduce(_add, all_record
 bs("slip-chain-kwargs-merge", "C09", "C10-r15", API, '"merge": True}', '"merge": False}', "C09-D1", "kwargs dict carries merge=False")
 bs("slip-parse-demorgan", "C07", "C07-r14", API, "if not (recognized_as_uri or self.is_curie(uri_or_curie)):", "if not (recognized_as_uri and self.is_curie(uri_or_curie)):", "C07-D1 C07-D2 C07-D3 C07-D4 C07-D5 C07-D6", "parse: De Morgan slip")
 bs("slip-std-prefix-tail", "C06 C08", "C15-r15", API, "return prefix if passthrough else None", "return None if passthrough else prefix", "C06-D5 C08-D3", "failure tail swapped")
+bs("slip-helper-first-occurrence", "C19", "C19-r2", DISC, "head, sep, luid = uri.rpartition(delimiter)", "head, sep, luid = uri.partition(delimiter)", "C19-D4", "extracted search helper cuts at the first delimiter")
+bs("slip-helper-no-isalnum", "C19", "C19-r2", DISC, "            if luid.isalnum():\n                return head + sep, luid", "            if luid:\n                return head + sep, luid", "C19-D4", "extracted search helper accepts any non-empty tail")
+bs("slip-helper-skip-known", "C19", "C19-r5", DISC, "if converter is not None and converter.is_uri(uri):\n        return True", "if converter is not None and not converter.is_uri(uri):\n        return True", "C19-D5", "extracted skip helper inverted")
 bs("slip-count-start", "C19", "C19-r15", DISC, "zip(itt.count(1), uri_prefixes)", "zip(itt.count(), uri_prefixes)", "C19-D2", "numbering starts at 0")
 
 
